@@ -193,3 +193,99 @@ def its_ms(utc_seconds: float) -> int:
 
 def tst32(utc_seconds: float) -> int:
     return its_ms(utc_seconds) % (1 << 32)
+
+
+class SleepWorld:
+    """Real threads whose time.sleep() parks them on the virtual clock (deterministic discrete-event
+    execution): the driver advances time to the earliest wake-up only when every live worker thread is
+    parked or finished."""
+
+    def __init__(self, clock: VClock):
+        self.clock = clock
+        self.cv = _real_threading.Condition()
+        self.live = set()          # worker threads started and not finished
+        self.parked = {}           # thread -> (wake time, seq, event)
+        self._seq = itertools.count()
+        self.errors = []
+        world = self
+
+        class VThread(_real_threading.Thread):
+            def __init__(self, *a, **k):
+                super().__init__(*a, **k)
+                self.daemon = True
+
+            def start(self):
+                with world.cv:
+                    world.live.add(self)
+                super().start()
+
+            def run(self):
+                try:
+                    super().run()
+                except BaseException as e:  # recorded for the harness
+                    world.errors.append((self.name, repr(e)))
+                finally:
+                    with world.cv:
+                        world.live.discard(self)
+                        world.cv.notify_all()
+
+        self.Thread = VThread
+
+    def sleep(self, seconds):
+        me = _real_threading.current_thread()
+        if me not in self.live:
+            self.clock.advance(seconds)     # driver thread
+            return
+        ev = _real_threading.Event()
+        with self.cv:
+            self.parked[me] = (round(self.clock.now + max(0.0, seconds), 9), next(self._seq), ev)
+            self.cv.notify_all()
+        ev.wait()
+
+    def _wait_all_parked(self, real_timeout=20.0):
+        deadline = _real_time.monotonic() + real_timeout
+        with self.cv:
+            while any(t not in self.parked for t in self.live):
+                left = deadline - _real_time.monotonic()
+                if left <= 0:
+                    raise RuntimeError("worker threads neither parked nor finished (real-time guard)")
+                self.cv.wait(left)
+
+    def run(self, until=None, max_wakes=100000):
+        """Run workers until none is left, or (until given) virtual time `until` is reached."""
+        wakes = 0
+        while True:
+            self._wait_all_parked()
+            with self.cv:
+                if not self.parked:
+                    break
+                th, (wake, _, ev) = min(self.parked.items(), key=lambda kv: (kv[1][0], kv[1][1]))
+                if until is not None and wake > until + 1e-12:
+                    break
+                del self.parked[th]
+            self.clock.advance_to(wake)
+            ev.set()
+            wakes += 1
+            if wakes > max_wakes:
+                raise RuntimeError("too many wake-ups")
+        if until is not None:
+            self.clock.advance_to(until)
+        return wakes
+
+    def shims(self):
+        """(time shim, threading shim) for modules whose threads sleep."""
+        t = self.clock.time_shim()
+        t.sleep = self.sleep
+        th = self.clock.threading_shim()
+        th.Thread = self.Thread
+        return t, th
+
+    def install(self, modules):
+        t, th = self.shims()
+        for mod in modules:
+            d = mod.__dict__
+            if isinstance(d.get("time"), types.ModuleType):
+                self.clock._set(mod, "time", t)
+            if isinstance(d.get("threading"), types.ModuleType):
+                self.clock._set(mod, "threading", th)
+        return self
